@@ -111,3 +111,45 @@ Proof. unfold wf_module_b, WfModule. rewrite andb_true_iff.
 
 Lemma str_body_example : StrBody """" (L "a\""b\x41\u{1F600}\0") /\ ~ StrBody """" (L "a\7") /\ ~ StrBody "'" (L "it's").
 Proof. split; [apply str_body_reflect; reflexivity|]. split; intros H; apply str_body_reflect in H; discriminate. Qed.
+
+(* ---------------------------------------------------------------- ty_ok = TyOk *)
+Lemma sum_in {A} (f : A -> nat) l x : In x l -> f x <= list_sum (map f l).
+Proof. unfold list_sum. induction l as [|y l IH]; intros H; [destruct H|]. cbn [map fold_right]. destruct H as [->|H]; [lia|]. specialize (IH H). lia. Qed.
+Lemma forallb_Forall_in {A} (f : A -> bool) (Q : A -> Prop) l : (forall x, In x l -> (f x = true <-> Q x)) -> (forallb f l = true <-> Forall Q l).
+Proof. intros H. rewrite forallb_forall, Forall_forall. split; intros H1 x Hx; apply (H x Hx), H1, Hx. Qed.
+
+Lemma tsize_pos t : 1 <= tsize t.
+Proof. destruct t; simpl; lia. Qed.
+Lemma ty_ok_reflect_n : forall n t, tsize t <= n -> (ty_ok t = true <-> TyOk t).
+Proof. induction n as [|n IH]; intros t Hn; [pose proof (tsize_pos t); lia|].
+  destruct t as [p args|t|ts|ts|s|p|ps r|ms ix]; cbn [tsize] in Hn; cbn [ty_ok].
+  - rewrite andb_true_iff. rewrite (forallb_Forall_in ty_ok TyOk args).
+    + split; [intros [H1 H2]; constructor; assumption|intros H; inversion H; subst; split; assumption].
+    + intros x Hx. apply IH. pose proof (sum_in tsize args x Hx). lia.
+  - rewrite (IH t) by lia. split; [intros H; constructor; exact H|intros H; inversion H; subst; assumption].
+  - rewrite (forallb_Forall_in ty_ok TyOk ts).
+    + split; [intros H; constructor; exact H|intros H; inversion H; subst; assumption].
+    + intros x Hx. apply IH. pose proof (sum_in tsize ts x Hx). lia.
+  - rewrite (forallb_Forall_in ty_ok TyOk ts).
+    + split; [intros H; constructor; exact H|intros H; inversion H; subst; assumption].
+    + intros x Hx. apply IH. pose proof (sum_in tsize ts x Hx). lia.
+  - split; [intros _; constructor|reflexivity].
+  - split; [intros H; constructor; exact H|intros H; inversion H; subst; assumption].
+  - rewrite andb_true_iff. rewrite (IH r) by lia.
+    rewrite (forallb_Forall_in _ (fun p : str * bool * ty => is_binding_name (fst (fst p)) = true /\ TyOk (snd p)) ps).
+    + split; [intros [H1 H2]; constructor; assumption|intros H; inversion H; subst; split; assumption].
+    + intros x Hx. rewrite andb_true_iff. rewrite (IH (snd x)); [reflexivity|].
+      pose proof (sum_in (fun p : str * bool * ty => tsize (snd p)) ps x Hx). cbn beta in *. lia.
+  - rewrite andb_true_iff.
+    rewrite (forallb_Forall_in _ (fun m : key * bool * ty => key_ok (fst (fst m)) = true /\ TyOk (snd m)) ms).
+    + rewrite (forallb_Forall_in _ (fun i : str * ty * ty => is_binding_name (fst (fst i)) = true /\ TyOk (snd (fst i)) /\ TyOk (snd i)) ix).
+      * split; [intros [H1 H2]; constructor; assumption|intros H; inversion H; subst; split; assumption].
+      * intros x Hx. rewrite !andb_true_iff.
+        pose proof (sum_in (fun i : str * ty * ty => tsize (snd (fst i)) + tsize (snd i)) ix x Hx) as Hs. cbn beta in Hs.
+        rewrite (IH (snd (fst x))) by lia. rewrite (IH (snd x)) by lia. tauto.
+    + intros x Hx. rewrite andb_true_iff. rewrite (IH (snd x)); [reflexivity|].
+      pose proof (sum_in (fun m : key * bool * ty => tsize (snd m)) ms x Hx). cbn beta in *. lia. Qed.
+Theorem ty_ok_reflect t : ty_ok t = true <-> TyOk t.
+Proof. apply (ty_ok_reflect_n (tsize t)). apply le_n. Qed.
+Lemma ty_ok_example : TyOk (TyUnion [TyArr (TyRef [L "types"; L "User"] []); TyRef [L "null"] []]) /\ ~ TyOk (TyRef [L "delete"] []).
+Proof. split; [apply ty_ok_reflect; vm_compute; reflexivity|]. intros H. apply ty_ok_reflect in H. vm_compute in H. discriminate. Qed.
